@@ -135,6 +135,9 @@ def shard(ctx):
         check_text(rec, kind, text, stream=(i % 5 == 0))
         if i % 1500 == 700:
             check_text(rec, 'bulk', hostile.bulk_statement(rng))
+        elif i % 1500 == 1300:
+            check_text(rec, 'many', hostile.many_statements(rng),
+                       stream=True)
         if i % 12 == 0:
             check_interleaved(rec, text, gen.text() if rng.random() < 0.5
                               else hostile.token_soup(rng))
